@@ -121,13 +121,13 @@ Lemma filter_length_le'' {A} (f : A -> bool) l : vlen (filter f l) <= vlen l.
 Proof. unfold vlen. pose proof (filter_length_le' f l). lia. Qed.
 
 Theorem part_delete_ok idx n nv mapped p :
-  sorted_lt idx -> n <= 65536 -> nv <= n \/ True ->
+  sorted_lt idx -> n <= 65536 ->
   Forall (fun v => v < n) (p_vmap p) ->
   (mapped = false -> forallb (tri_lt n) (p_tris p) = true) ->
   part_wf nv mapped p = true ->
   part_delete mapped (collapse_spec idx n) p = Ok (part_spec idx mapped p).
 Proof.
-  intros Hs Hn _ Hvm Htn Hwf. unfold part_wf in Hwf.
+  intros Hs Hn Hvm Htn Hwf. unfold part_wf in Hwf.
   repeat (apply andb_prop in Hwf; destruct Hwf as [Hwf ?]).
   apply N.ltb_lt in H0, H7. apply N.eqb_eq in H1.
   unfold part_delete, part_spec.
@@ -217,7 +217,7 @@ Proof.
   unfold part_spec in Hnt. unfold part_spec. cbn [p_nt] in Hnt. fold vm'.
   unfold part_wf. cbn [p_nstrips p_strips p_nv p_vmap p_tris p_hasvw p_vw p_hasbi p_bi p_nt].
   rewrite Hwf, H9. rewrite !N.eqb_refl. rewrite Hent.
-  assert (Hvm65 : vlen vm' < 65536) by (clear -Hvl Hfl H0; lia).
+  assert (Hvm65 : vlen vm' < 65536) by (clear -Hvl Hfl H7; lia).
   destruct (N.ltb_spec (vlen vm') 65536) as [_|Hc]; [|clear -Hc Hvm65; lia]. cbn [andb].
   (* partner arrays *)
   assert (Hvw : (if p_hasvw p then vlen (if p_hasvw p then keep_partner idx (p_vmap p) (p_vw p) else p_vw p) =? vlen vm' else true) = true).
@@ -230,7 +230,7 @@ Proof.
   destruct mapped.
   - set (t' := tris_spec (dlpos idx 0 (p_vmap p)) (p_tris p)) in *.
     pose proof (tris_spec_length (dlpos idx 0 (p_vmap p)) (p_tris p)) as Htl. fold t' in Htl.
-    destruct (N.ltb_spec (vlen t') 65536) as [_|Hc]; [|clear -Hc Htl H7; unfold vlen in *; lia].
+    destruct (N.ltb_spec (vlen t') 65536) as [_|Hc]; [|clear -Hc Htl H0; unfold vlen in *; lia].
     assert (Hlt : forallb (tri_lt (vlen vm')) t' = true).
     { rewrite Hvl. rewrite <- erase_spec_dlpos_self. rewrite erase_spec_vlen. apply tris_spec_lt. exact H. }
     rewrite Hlt. destruct t' as [|t0 t''] eqn:Ht'; [cbn in Hnt; congruence|].
@@ -239,10 +239,176 @@ Proof.
   - apply andb_prop in H. destruct H as [Hlt Hin].
     set (t' := tris_spec idx (p_tris p)) in *.
     pose proof (tris_spec_length idx (p_tris p)) as Htl. fold t' in Htl.
-    destruct (N.ltb_spec (vlen t') 65536) as [_|Hc]; [|clear -Hc Htl H7; unfold vlen in *; lia].
+    destruct (N.ltb_spec (vlen t') 65536) as [_|Hc]; [|clear -Hc Htl H0; unfold vlen in *; lia].
     assert (Hlt' : forallb (tri_lt (rank idx nv)) t' = true) by (apply tris_spec_lt; exact Hlt).
     assert (Hin' : forallb (tri_in vm') t' = true) by (apply tris_spec_in; exact Hin).
     rewrite Hlt', Hin'. destruct t' as [|t0 t''] eqn:Ht'; [cbn in Hnt; congruence|].
     destruct vm' as [|v0 vm'']; [|reflexivity].
     cbn [forallb] in Hin'. destruct t0 as [[a b0] c]. cbn in Hin'. discriminate.
+Qed.
+
+(* ---------------------------------------------------------------------------------------- *)
+(* the whole NiSkinPartition block *)
+
+Lemma fold_max_ge_init l : forall m, m <= fold_left N.max l m.
+Proof. induction l as [|x l IH]; intros m; cbn [fold_left]; [lia|]. specialize (IH (N.max m x)). lia. Qed.
+
+Lemma fold_max_ge_elem l : forall m x, In x l -> x <= fold_left N.max l m.
+Proof.
+  induction l as [|y l IH]; intros m x Hin; [contradiction|]. cbn [fold_left]. destruct Hin as [->|Hin].
+  - pose proof (fold_max_ge_init l (N.max m x)). lia.
+  - apply IH. exact Hin.
+Qed.
+
+Lemma fold_max_le l b : forall m, m <= b -> Forall (fun x => x <= b) l -> fold_left N.max l m <= b.
+Proof.
+  induction l as [|y l IH]; intros m Hm Hall; cbn [fold_left]; [exact Hm|]. inversion Hall; subst.
+  apply IH; [lia|assumption].
+Qed.
+
+Definition tri_le (b : N) (t : tri) : Prop := let '(p1, p2, p3) := t in p1 <= b /\ p2 <= b /\ p3 <= b.
+
+Lemma max_tri_fold_ge_init l : forall m,
+  m <= fold_left (fun m t => let '(p1, p2, p3) := t in N.max (N.max (N.max m p1) p2) p3) l m.
+Proof.
+  induction l as [|[[a b] c] l IH]; intros m; cbn [fold_left]; [lia|].
+  specialize (IH (N.max (N.max (N.max m a) b) c)). lia.
+Qed.
+
+Lemma max_tri_fold_ge l : forall m t, In t l ->
+  tri_le (fold_left (fun m t => let '(p1, p2, p3) := t in N.max (N.max (N.max m p1) p2) p3) l m) t.
+Proof.
+  induction l as [|[[a b] c] l IH]; intros m t Hin; [contradiction|]. cbn [fold_left]. destruct Hin as [<-|Hin].
+  - pose proof (max_tri_fold_ge_init l (N.max (N.max (N.max m a) b) c)). unfold tri_le. lia.
+  - apply IH. exact Hin.
+Qed.
+
+Lemma max_tri_fold_le l b : forall m, m <= b -> Forall (tri_le b) l ->
+  fold_left (fun m t => let '(p1, p2, p3) := t in N.max (N.max (N.max m p1) p2) p3) l m <= b.
+Proof.
+  induction l as [|[[a c] d] l IH]; intros m Hm Hall; cbn [fold_left]; [exact Hm|]. inversion Hall as [|? ? Ht Hall']; subst.
+  unfold tri_le in Ht. apply IH; [lia|assumption].
+Qed.
+
+Definition part_max (mapped : bool) (m : N) (p : part) : N :=
+  let m1 := fold_left N.max (p_vmap p) m in
+  if negb mapped then N.max m1 (max_tri_index (p_tris p)) else m1.
+
+Lemma sp_max_vert_fold mapped parts : sp_max_vert mapped parts = fold_left (part_max mapped) parts 0.
+Proof. reflexivity. Qed.
+
+Lemma part_max_ge mapped m p : m <= part_max mapped m p.
+Proof. unfold part_max. pose proof (fold_max_ge_init (p_vmap p) m). destruct (negb mapped); lia. Qed.
+
+Lemma fold_part_max_ge_init mapped parts : forall m, m <= fold_left (part_max mapped) parts m.
+Proof.
+  induction parts as [|p r IH]; intros m; cbn [fold_left]; [lia|].
+  pose proof (part_max_ge mapped m p). specialize (IH (part_max mapped m p)). lia.
+Qed.
+
+Lemma part_max_ge_vm mapped m p v : In v (p_vmap p) -> v <= part_max mapped m p.
+Proof. intros Hv. unfold part_max. pose proof (fold_max_ge_elem (p_vmap p) m v Hv). destruct (negb mapped); lia. Qed.
+
+Lemma part_max_ge_tri m p t : In t (p_tris p) -> tri_le (part_max false m p) t.
+Proof.
+  intros Ht. unfold part_max. cbn [negb]. pose proof (max_tri_fold_ge (p_tris p) 0 t Ht) as Hle.
+  unfold max_tri_index. destruct t as [[a b] c]. unfold tri_le in *. lia.
+Qed.
+
+Lemma fold_part_max_ge mapped parts : forall m p, In p parts ->
+  Forall (fun v => v <= fold_left (part_max mapped) parts m) (p_vmap p) /\
+  (mapped = false -> Forall (tri_le (fold_left (part_max mapped) parts m)) (p_tris p)).
+Proof.
+  induction parts as [|q r IH]; intros m p Hin; [contradiction|]. cbn [fold_left]. destruct Hin as [<-|Hin].
+  - pose proof (fold_part_max_ge_init mapped r (part_max mapped m q)) as Hge.
+    split.
+    + apply Forall_forall. intros v Hv. pose proof (part_max_ge_vm mapped m q v Hv). lia.
+    + intros ->. apply Forall_forall. intros t Ht.
+      pose proof (part_max_ge_tri m q t Ht) as Hle. destruct t as [[a b] c]. unfold tri_le in *. lia.
+  - apply IH. exact Hin.
+Qed.
+
+Lemma fold_part_max_le mapped b parts : forall m, m <= b ->
+  Forall (fun p => Forall (fun v => v <= b) (p_vmap p) /\ (mapped = false -> Forall (tri_le b) (p_tris p))) parts ->
+  fold_left (part_max mapped) parts m <= b.
+Proof.
+  induction parts as [|p r IH]; intros m Hm Hall; cbn [fold_left]; [exact Hm|]. inversion Hall as [|? ? [Hv Ht] Hall']; subst.
+  apply IH; [|assumption]. unfold part_max.
+  pose proof (fold_max_le (p_vmap p) b m Hm Hv).
+  destruct mapped; cbn [negb]; [assumption|].
+  pose proof (max_tri_fold_le (p_tris p) b 0 ltac:(lia) (Ht eq_refl)). unfold max_tri_index. lia.
+Qed.
+
+Definition skinpart_wf (nv : N) (sp : skinpart) : bool :=
+  (sp_np sp =? vlen (sp_parts sp)) && (vlen (sp_parts sp) <? 4294967296) && (nv <? 65536)
+  && forallb (part_wf nv (sp_mapped sp)) (sp_parts sp)
+  && (isnil (sp_vdata sp) || ((vlen (sp_vdata sp) =? nv) && (sp_nv sp =? nv))).
+
+Definition nonempty_part (p : part) : bool := negb (p_nt p =? 0).
+
+Definition skinpart_spec (idx : list N) (sp : skinpart) : skinpart :=
+  let parts2 := filter nonempty_part (map (part_spec idx (sp_mapped sp)) (sp_parts sp)) in
+  let vd := erase_spec (sp_vdata sp) idx in
+  mkSkinpart (vlen parts2) (if isnil (sp_vdata sp) then sp_nv sp else vlen vd) vd parts2 (sp_mapped sp) [].
+
+Lemma part_wf_prepared nv mapped p : part_wf nv mapped p = true ->
+  part_convert_strips p = Ok p /\ part_prepare mapped p = Ok p.
+Proof.
+  intros Hwf. unfold part_wf in Hwf. repeat (apply andb_prop in Hwf; destruct Hwf as [Hwf ?]).
+  split.
+  - unfold part_convert_strips. rewrite Hwf. reflexivity.
+  - unfold part_prepare. destruct (p_vmap p); [discriminate|]. cbn [isnil]. destruct (p_tris p); [discriminate|]. reflexivity.
+Qed.
+
+Lemma tri_lt_le b t : tri_lt (b + 1) t = true <-> tri_le b t.
+Proof.
+  destruct t as [[a c] d]. unfold tri_lt, tri_le. rewrite !andb_true_iff, !N.ltb_lt. lia.
+Qed.
+
+Lemma part_wf_bounds nv mapped p : part_wf nv mapped p = true ->
+  Forall (fun v => v < nv) (p_vmap p) /\ (mapped = false -> forallb (tri_lt nv) (p_tris p) = true).
+Proof.
+  intros Hwf. unfold part_wf in Hwf. repeat (apply andb_prop in Hwf; destruct Hwf as [Hwf ?]).
+  split.
+  - apply Forall_forall. intros v Hv. rewrite forallb_forall in H6. specialize (H6 v Hv). apply N.ltb_lt. exact H6.
+  - intros ->. apply andb_prop in H. tauto.
+Qed.
+
+Theorem skinpart_delete_ok idx nv sp : idx <> [] -> sorted_lt idx -> skinpart_wf nv sp = true ->
+  skinpart_delete sp idx =
+  Ok (mkSkinpart (sp_np sp) (if isnil (sp_vdata sp) then sp_nv sp else vlen (erase_spec (sp_vdata sp) idx))
+                 (erase_spec (sp_vdata sp) idx)
+                 (map (part_spec idx (sp_mapped sp)) (sp_parts sp)) (sp_mapped sp) []).
+Proof.
+  intros Hne Hs Hwf. unfold skinpart_wf in Hwf.
+  repeat (apply andb_prop in Hwf; destruct Hwf as [Hwf ?]).
+  apply N.ltb_lt in H1, H2. rename H0 into Hparts. rename H into Hvd.
+  unfold skinpart_delete. destruct idx as [|i0 idx']; [congruence|]. set (idx := i0 :: idx') in *.
+  assert (Hprep : Forall (fun p => part_convert_strips p = Ok p /\ part_prepare (sp_mapped sp) p = Ok p) (sp_parts sp)).
+  { apply Forall_forall. intros p Hp. rewrite forallb_forall in Hparts. apply (part_wf_prepared nv). apply Hparts. exact Hp. }
+  rewrite (mapM_ok _ (fun p => p)) by (eapply Forall_impl; [|exact Hprep]; cbn; tauto). rewrite map_id. cbn [bind].
+  rewrite (mapM_ok _ (fun p => p)) by (eapply Forall_impl; [|exact Hprep]; cbn; tauto). rewrite map_id. cbn [bind].
+  rewrite sp_max_vert_fold. set (mx := fold_left (part_max (sp_mapped sp)) (sp_parts sp) 0).
+  assert (Hmx : mx < 65535).
+  { assert (mx <= 65534); [|lia]. apply fold_part_max_le; [lia|].
+    apply Forall_forall. intros p Hp. rewrite forallb_forall in Hparts.
+    destruct (part_wf_bounds nv _ p (Hparts p Hp)) as [Hb Ht].
+    split; [eapply Forall_impl; [|exact Hb]; cbn; intros; lia|].
+    intros Hm. specialize (Ht Hm). apply Forall_forall. intros t Ht'. rewrite forallb_forall in Ht.
+    specialize (Ht t Ht'). destruct t as [[a b] c]. unfold tri_lt in Ht. unfold tri_le.
+    repeat (apply andb_prop in Ht; destruct Ht as [Ht ?]). apply N.ltb_lt in Ht, H, H0. lia. }
+  rewrite wrap16_small by lia. rewrite collapse_u16_ok by (assumption || lia). cbn [bind].
+  rewrite (mapM_ok _ (part_spec idx (sp_mapped sp))).
+  2:{ apply Forall_forall. intros p Hp. rewrite forallb_forall in Hparts.
+      destruct (fold_part_max_ge (sp_mapped sp) (sp_parts sp) 0 p Hp) as [Hv Ht]. fold mx in Hv, Ht.
+      apply (part_delete_ok idx (mx + 1) nv); try assumption; try lia; try (apply Hparts; exact Hp).
+      - eapply Forall_impl; [|exact Hv]. cbn; intros; lia.
+      - intros Hm. specialize (Ht Hm). apply forallb_forall. intros t Ht'. rewrite Forall_forall in Ht.
+        apply tri_lt_le. apply Ht. exact Ht'. }
+  cbn [bind].
+  destruct (sp_vdata sp) as [|v0 vd] eqn:Hvdata; cbn [isnil].
+  - reflexivity.
+  - cbn [isnil orb] in Hvd. apply andb_prop in Hvd. destruct Hvd as [Hv1 Hv2]. apply N.eqb_eq in Hv1.
+    rewrite erase16_ok by (assumption || lia). cbn [bind].
+    pose proof (erase_spec_le (v0 :: vd) idx). rewrite wrap32_small by lia. reflexivity.
 Qed.
